@@ -33,6 +33,7 @@ func checkC14(r *Report, p *Program) {
 	tombstonesAreValues(r, p, "R14.12")
 	getObjectTable(r, p, "R14.13")
 	operandFromTheLoop(r, p, "R14.14")
+	fanOutLoopsDoNotReturn(r, p, "R14.15")
 	relatedNotifyTable(r, p, "R14.9")
 }
 
